@@ -87,6 +87,21 @@ CHECKS = {
          "Sizes {0,1,2,10,65536}; unit pool {bytes=,Bytes=,items=,none}; ModifyRequest not exercised.",
          "bounded-exhaustive input enumeration against a reference model", "enum", "DESIGN.md §7 C20"),
 }
+# what later rounds added to each check (appended to the level text)
+ADD = {
+ "C01": "Later additions: request 1 plus a prefix of request 2 in one write (7 cut points; response 1 must arrive before the rest is sent); idle-timeout family (SetTimeout, gaps below the timeout whose sum exceeds it); interleaved client connections; origin responses split into several writes.",
+ "C02": "Later additions: composable behaviours (dial error, round-trip error, skip, one-/multi-line modifier errors, hijack, skip combined with the other context marks in both orders, a RoundTripper answering on req.Clone()), pipelined clients; auxiliary free-running -race pass with a real proxy asserting id uniqueness under parallel load.",
+ "C03": "Later additions: configuration dimension {no modifier, har.Logger, martianlog.Logger, marbl modifier} in the truncation family; two-write cuts of the origin's bytes; second request already pipelined when the fault happens.",
+ "C04": "Later additions: simultaneous chunks above the bufio size in both directions; silent periods of 11 s / 200 s of virtual time before the last chunks (deadlines left armed), all routes.",
+ "C07": "Later additions: the idle and mid-head points reached on a kept-alive connection, with the partial head pipelined behind the previous request, and with a client that never completes the head.",
+ "C09": "Later additions: histories after a third stream used up 65531/65535 bytes of the connection window (connection window is the binding constraint), MAX_FRAME_SIZE raise/lower/default histories, bursts toward a stalled receiver.",
+ "C10": "Later additions: write failures whose failing write is the WINDOW_UPDATE acknowledging a DATA frame or the forwarded DATA itself, with a PING pending in the other direction for the same peer.",
+ "C13": "Later additions: API-marked requests whose query string ParseForm rejects; aliasing scenarios for nested MultiErrors.",
+ "C14": "Later additions: auxiliary free-running -race pass pushing concurrent messages through one spec stack with direct assertions.",
+ "C15": "Later additions: failing-body family (every message of a sub-space cut at every structural offset of its body, sender closes or resets; pass-through variants must equal the unlogged twin, buffering variants must still fail and write only a prefix); multi-member gzip bodies; context-operation histories around skip-logging.",
+ "C16": "Later additions: multi-member gzip bodies.",
+ "C19": "Later additions: concurrent readers of 40000/70000-byte bodies with 32 KiB / 64 KiB buffers (frames of tens of kilobytes).",
+}
 NOT_YET = "check not built yet in this round (planned, see DESIGN.md section 7); not claimed"
 
 checks, na = [], []
@@ -94,6 +109,8 @@ for p in props:
     pid = p["id"]
     if pid in CHECKS:
         cat, text, note, tech, eng, ref = CHECKS[pid]
+        if pid in ADD:
+            text = text + " " + ADD[pid]
         checks.append({
             "property_id": pid,
             "quick_cmd": f"./check {pid} quick",
